@@ -99,7 +99,9 @@ def main():
     ap.add_argument("--jobs", type=int, default=3)
     a = ap.parse_args()
     ids = a.ids or sorted(x for x in os.listdir(SEEDED) if os.path.isdir(os.path.join(SEEDED, x)))
+    global BASE
     os.makedirs(BASE, exist_ok=True)
+    BASE = tempfile.mkdtemp(prefix="run%d_" % os.getpid(), dir=BASE)      # private: instances may run concurrently
     bad = 0
     with ThreadPoolExecutor(max_workers=a.jobs) as ex:
         for r in ex.map(lambda s: evaluate(s, a), ids):
